@@ -59,6 +59,11 @@ class Spec(DiffSpec):
             for name, mel, nops in shipped:
                 s = base_seed * 1000003 + 930000 + rep * 10 + len(name)
                 yield {"seed": s, "shipped": name, "max_episode_length": mel, "n_ops": nops, "monitors": [], "op_mix": {"step": 0.97, "reset": 0.0, "fault": 0.03}, "first_reset_seed": s % 100000, "io": dict(IO_OFF)}
+        # shipped UC7 topologies with generated kill-chain options for the threat-actor agents
+        for k in range(6 if tier == "quick" else 60):
+            s = base_seed * 1000003 + 931000 + k
+            name = "uc7_config.yaml" if k % 3 else "uc7_config_tap003.yaml"
+            yield {"seed": s, "shipped": name, "tap_variation": s, "max_episode_length": 70, "n_ops": 66, "monitors": [], "op_mix": {"step": 0.98, "reset": 0.0, "fault": 0.02}, "first_reset_seed": s % 100000, "io": dict(IO_OFF)}
         for i in range(n):
             s = base_seed * 1000003 + 30000000 + i
             prof = {"n_green": (1, 3), "n_red": (1, 2), "tight_links": 0.3, "io_on": 0.0, "avoid": ["listen_on_ports", "routing_loop"], "action_map_size": (20, 60)}
